@@ -18,6 +18,7 @@ struct LzhInput {
 	std::vector<uint8_t> bytes;
 	std::vector<uint8_t> payload; // only for mode payload
 	size_t tokens = 0;
+	int longestCode = 0;
 	std::string mode;
 };
 
@@ -45,6 +46,11 @@ LzhInput buildInput(const Plan& plan) {
 			// may exceed the counter capacity: encoded with wide counters, one symbol dominating the statistics
 			ref::LzhTokens t = ref::skewedTokens(seed, n, l.u("num", 1), l.u("den", 1), l.u("dommatch", 0) != 0);
 			in.bytes = ref::lzhEncode(t, &in.tokens, true);
+		} else if (in.mode == "fib") {
+			// Fibonacci-like frequencies: the deepest code tree the counters allow, inside the capacity
+			ref::LzhTokens t = ref::fibonacciTokens(seed, static_cast<size_t>(l.u("levels", 20)), n, l.u("base", 1));
+			in.bytes = ref::lzhEncode(t, &in.tokens);
+			in.longestCode = ref::lzhLongestCodeBits();
 		} else if (in.mode == "equal") {
 			in.bytes.assign(n, static_cast<uint8_t>(l.u("value", 0)));
 		} else if (in.mode == "random") {
@@ -78,6 +84,11 @@ struct LzhDrain : Family {
 		else if (k < 90) { w.set("mode", "equal").set("value", r.chance(1, 2) ? (r.chance(1, 2) ? 0 : 255) : r.below(256)).set("n", r.below(3000)); }
 		else { // over capacity: more than 65221 codes
 			if (r.chance(1, 3)) w.set("mode", "equal").set("value", r.chance(1, 2) ? 0 : 255).set("n", r.range(9000, 20000));
+			else if (r.chance(1, 3)) {
+				// base 1: plain Fibonacci counts; base just above the joint weight of the ~300 symbols never used: the chain sits on top of them
+				bool plainFib = r.chance(1, 3);
+				w.set("mode", "fib").set("seed", hex64(r.next())).set("base", plainFib ? 1 : r.range(305, 450)).set("levels", plainFib ? r.range(16, 23) : r.range(8, 10)).set("n", r.range(50, 3000));
+			}
 			else if (r.chance(1, 2)) {
 				// token streams that run past the capacity with one symbol dominating (its leaf sits high in the tree at that point)
 				static const uint64_t NUM[] = {1, 9, 3, 2, 1, 1}, DEN[] = {1, 10, 4, 3, 2, 3};
@@ -115,6 +126,9 @@ struct LzhDrain : Family {
 
 	void execute(const Plan& plan, RunCtx& ctx) override {
 		LzhInput in = buildInput(plan);
+		if (in.longestCode > 16) ctx.count("probe.code_longer_than_16_bits");
+		if (in.longestCode > 18) ctx.count("probe.code_longer_than_18_bits");
+		if (in.longestCode > 20) ctx.count("probe.code_longer_than_20_bits");
 		ref::LzhDecoded D = ref::lzhDecode(in.bytes);
 		bool emptyInput = in.bytes.empty();
 		if (D.capacityError) ctx.count("probe.capacity_reached");
